@@ -614,6 +614,7 @@ func runFormProg(c *core.Case, e *entry, prog *formProg, withSubmit bool) {
 			break
 		}
 	}
+	exerciseForm(c, d2, "decoded submission")
 }
 
 // canonicalSubmission: values XEP-0004 allows for the field type and that the
